@@ -235,11 +235,28 @@ theorem sinkReads_sub (fs : List Fact) (y : V) (h : y ∈ fs.flatMap sinkReadsOf
   refine ⟨f, hf, ?_⟩
   cases f <;> simp [sinkReadsOf, readsOf] at hy ⊢ <;> exact hy
 
-/-- what the sink set contains -/
-theorem sinks_cover (d : Def) (S : List V) (h : d.sinks = some S) :
+theorem mem_consVars (fs : List Fact) (u : V) : u ∈ consVars fs ↔ ∃ us reads, Fact.constraint us reads ∈ fs ∧ u ∈ us := by
+  unfold consVars
+  rw [List.mem_flatMap]
+  constructor
+  · rintro ⟨f, hf, hu⟩
+    cases f with
+    | constraint us reads => exact ⟨us, reads, hf, hu⟩
+    | assign _ _ _ => cases hu
+    | decl _ _ => cases hu
+    | branch _ _ _ => cases hu
+    | observe _ => cases hu
+    | other _ => cases hu
+  · rintro ⟨us, reads, hf, hu⟩
+    exact ⟨_, hf, hu⟩
+
+/-- what the sink set contains; `M` is any set of variables that an input/output signal flows into (the variables whose
+    symbolic value mentions such a signal are among them) -/
+theorem sinks_cover (d : Def) (S : List V) (h : d.sinks = some S) (M : List V)
+    (hM : ∀ u, u ∈ M → ∃ e, e ∈ d.exported ∧ Reach (edges d.facts) e u) :
     (∀ e, e ∈ d.exported → e ∈ S) ∧
     (∀ f, f ∈ d.facts → ∀ y, y ∈ sinkReadsOf f → y ∈ S) ∧
-    (∀ us reads, Fact.constraint us reads ∈ d.facts → (∃ u, u ∈ us ∧ u ∈ d.exported) → ∀ v, v ∈ us → v ∈ S) := by
+    (∀ us reads, Fact.constraint us reads ∈ d.facts → (∃ u, u ∈ us ∧ u ∈ M) → ∀ v, v ∈ us → v ∈ S) := by
   unfold Def.sinks at h
   simp only at h
   split at h
@@ -255,29 +272,28 @@ theorem sinks_cover (d : Def) (S : List V) (h : d.sinks = some S) :
       refine ⟨hexp, ?_, ?_⟩
       · intro f hf y hy
         exact List.mem_append_right _ (List.mem_flatMap.mpr ⟨f, hf, hy⟩)
-      · intro us reads hf ⟨u, hu, hue⟩ v hv
-        by_cases hvu : v = u
-        · subst hvu; exact hexp v hue
-        · -- u ∈ b
-          obtain ⟨t, ht, htsub⟩ := optBind_spec _ _ _ hb u hue
-          have hub : u ∈ b := htsub u (multiStepTaint_complete _ _ _ _ ht u Reach.refl)
-          obtain ⟨x, hx, hxsub⟩ := optBind_spec _ _ _ hc u hub
-          split at hx
-          · cases hx
-          · rename_i rr hrr
-            cases hx
-            have hedge : (u, v) ∈ consEdges d.facts :=
+      · intro us reads hf ⟨u, hu, hum⟩ v hv
+        -- u ∈ b: an exported signal flows into it
+        obtain ⟨e, hee, her⟩ := hM u hum
+        obtain ⟨t, ht, htsub⟩ := optBind_spec _ _ _ hb e hee
+        have hub : u ∈ b := htsub u (multiStepTaint_complete _ _ _ _ ht u her)
+        obtain ⟨x, hx, hxsub⟩ := optBind_spec _ _ _ hc u hub
+        split at hx
+        · cases hx
+        · rename_i rr hrr
+          cases hx
+          have hucv : (consVars d.facts).contains u = true := by
+            simpa using (mem_consVars d.facts u).mpr ⟨us, reads, hf, hu⟩
+          apply List.mem_append_left
+          apply List.mem_append_left
+          apply hxsub
+          rw [hucv]
+          simp only [if_true]
+          by_cases hvu : v = u
+          · subst hvu; exact List.mem_cons_self
+          · have hedge : (u, v) ∈ consEdges d.facts :=
               (consEdges_mem d.facts u v).mpr ⟨us, reads, hf, hu, hv, fun e => hvu e.symm⟩
-            have hvr : v ∈ rr := multiStepCons_partners _ _ _ _ hrr v hedge
-            have hne : rr.isEmpty = false := by
-              cases rr with
-              | nil => cases hvr
-              | cons _ _ => rfl
-            apply List.mem_append_left
-            apply List.mem_append_left
-            apply hxsub
-            rw [hne]
-            exact List.mem_cons_of_mem _ hvr
+            exact List.mem_cons_of_mem _ (multiStepCons_partners _ _ _ _ hrr v hedge)
 
 /-- every sink is read somewhere, or is an exported signal -/
 theorem sinks_read (d : Def) (S : List V) (h : d.sinks = some S) (hw : ConsWf d.facts) :
@@ -300,41 +316,20 @@ theorem sinks_read (d : Def) (S : List V) (h : d.sinks = some S) (hw : ConsWf d.
           · cases hx
           · rename_i rr hrr
             cases hx
+            have horigin := multiStepCons_origin _ _ _ _ hrr
+            have hrest : y ∈ rr → y ∈ readSet d.facts := by
+              intro hyr
+              obtain ⟨u, hu⟩ := horigin y hyr
+              obtain ⟨us, reads, hf, _, hb', _⟩ := (consEdges_mem d.facts u y).mp hu
+              exact hw us reads hf y hb'
             split at hyx
-            · cases hyx
-            · rename_i hne
-              have horigin := multiStepCons_origin _ _ _ _ hrr
+            · rename_i hcv
               rcases List.mem_cons.mp hyx with hyx | hyx
               · subst hyx
-                -- rr non-empty: some partner of y
-                cases rr with
-                | nil => simp at hne
-                | cons z zs =>
-                  obtain ⟨u, hu⟩ := horigin z List.mem_cons_self
-                  -- z came from an edge; but we need an edge from y: use the first update
-                  unfold multiStepCons at hrr
-                  rcases closeLoop_origin _ _ _ _ _ hrr z List.mem_cons_self with h1 | h1 | ⟨u', hu'⟩
-                  · cases h1
-                  · have := (mem_succs _ _ _).mp h1
-                    obtain ⟨us, reads, hf, ha, _, _⟩ := (consEdges_mem d.facts y z).mp this
-                    exact hw us reads hf y ha
-                  · -- then the start set was non-empty as well, otherwise the loop returns []
-                    cases hsu : succs (consEdges d.facts) y with
-                    | nil =>
-                      rw [hsu] at hrr
-                      cases hfuel : d.fuel with
-                      | zero => rw [hfuel] at hrr; simp [closeLoop] at hrr
-                      | succ k =>
-                        rw [hfuel] at hrr
-                        simp [closeLoop, subset] at hrr
-                    | cons w ws =>
-                      have : w ∈ succs (consEdges d.facts) y := by rw [hsu]; exact List.mem_cons_self
-                      have := (mem_succs _ _ _).mp this
-                      obtain ⟨us, reads, hf, ha, _, _⟩ := (consEdges_mem d.facts y w).mp this
-                      exact hw us reads hf y ha
-              · obtain ⟨u, hu⟩ := horigin y hyx
-                obtain ⟨us, reads, hf, _, hb', _⟩ := (consEdges_mem d.facts u y).mp hu
-                exact hw us reads hf y hb'
+                obtain ⟨us, reads, hf, hu⟩ := (mem_consVars d.facts y).mp (by simpa using hcv)
+                exact hw us reads hf y hu
+              · exact hrest hyx
+            · exact hrest hyx
         · exact Or.inl hy
       · exact Or.inr (sinkReads_sub d.facts y hy)
 
@@ -379,7 +374,7 @@ theorem classify_safe (d : Def) (S : List V) (x : V) (c : Claim) (hS : d.sinks =
 variable {Val : Type}
 
 /-- `step` with an override of the value stored by assignments: `ov clock w v` is stored instead of `v` -/
-def stepO (exported : List V) (ov : Nat → V → Val → Val) (p : Prog Val) (clock : Nat) (s : State Val) : State Val :=
+def stepO (exported mention : List V) (ov : Nat → V → Val → Val) (p : Prog Val) (clock : Nat) (s : State Val) : State Val :=
   if s.halted then s else
   match p[s.blk]? with
   | none => { s with halted := true }
@@ -402,20 +397,20 @@ def stepO (exported : List V) (ov : Nat → V → Val → Val) (p : Prog Val) (c
       | .observe rs => { s with idx := s.idx + 1, trace := s.trace ++ [.obs (vals s.env rs)] }
       | .constraint us _ =>
         { s with idx := s.idx + 1,
-                 trace := if us.any (fun u => exported.contains u) then s.trace ++ [.cs (vals s.env us)] else s.trace }
+                 trace := if us.any (fun u => mention.contains u) then s.trace ++ [.cs (vals s.env us)] else s.trace }
       | .other _ => { s with idx := s.idx + 1 }
 
-def runO (exported : List V) (ov : Nat → V → Val → Val) (p : Prog Val) : Nat → Nat → State Val → State Val
+def runO (exported mention : List V) (ov : Nat → V → Val → Val) (p : Prog Val) : Nat → Nat → State Val → State Val
   | 0, _, s => s
-  | k + 1, clock, s => runO exported ov p k (clock + 1) (stepO exported ov p clock s)
+  | k + 1, clock, s => runO exported mention ov p k (clock + 1) (stepO exported mention ov p clock s)
 
-theorem stepO_id (exported : List V) (p : Prog Val) (clock : Nat) (s : State Val) :
-    stepO exported (fun _ _ v => v) p clock s = step exported p s := by
+theorem stepO_id (exported mention : List V) (p : Prog Val) (clock : Nat) (s : State Val) :
+    stepO exported mention (fun _ _ v => v) p clock s = step exported mention p s := by
   unfold stepO step
   rfl
 
-theorem runO_id (exported : List V) (p : Prog Val) : ∀ (k clock : Nat) (s : State Val),
-    runO exported (fun _ _ v => v) p k clock s = run exported p k s := by
+theorem runO_id (exported mention : List V) (p : Prog Val) : ∀ (k clock : Nat) (s : State Val),
+    runO exported mention (fun _ _ v => v) p k clock s = run exported mention p k s := by
   intro k
   induction k with
   | zero => intro _ _; rfl
@@ -443,15 +438,15 @@ theorem vals_congr (env env' : V → Val) (rs : List V) (h : ∀ r, r ∈ rs →
   exact List.map_congr_left h
 
 /-- what the sink set must cover for the machine (proved for the analysis' sink set by `sinks_cover`) -/
-structure Covers (facts : List Fact) (exported S : List V) : Prop where
+structure Covers (facts : List Fact) (exported mention S : List V) : Prop where
   exp : ∀ e, e ∈ exported → e ∈ S
   reads : ∀ f, f ∈ facts → ∀ y, y ∈ sinkReadsOf f → y ∈ S
-  cons : ∀ us reads, Fact.constraint us reads ∈ facts → (∃ u, u ∈ us ∧ u ∈ exported) → ∀ v, v ∈ us → v ∈ S
+  cons : ∀ us reads, Fact.constraint us reads ∈ facts → (∃ u, u ∈ us ∧ u ∈ mention) → ∀ v, v ∈ us → v ∈ S
 
-theorem step_rel (exported S : List V) (p : Prog Val) (x : V) (ora : Nat → Val) (clock : Nat)
-    (hc : Covers p.facts exported S) (hsafe : ∀ s, s ∈ S → ¬ Reach (edges p.facts) x s)
+theorem step_rel (exported mention S : List V) (p : Prog Val) (x : V) (ora : Nat → Val) (clock : Nat)
+    (hc : Covers p.facts exported mention S) (hsafe : ∀ s, s ∈ S → ¬ Reach (edges p.facts) x s)
     (s s' : State Val) (h : Rel (edges p.facts) x s s') :
-    Rel (edges p.facts) x (stepO exported (fun _ _ v => v) p clock s) (stepO exported (replace x ora) p clock s') := by
+    Rel (edges p.facts) x (stepO exported mention (fun _ _ v => v) p clock s) (stepO exported mention (replace x ora) p clock s') := by
   obtain ⟨hb, hi, hh, ht, he⟩ := h
   unfold stepO
   rw [← hb, ← hi, ← hh]
@@ -522,7 +517,7 @@ theorem step_rel (exported S : List V) (p : Prog Val) (x : V) (ora : Nat → Val
           dsimp only
           refine ⟨rfl, rfl, rfl, ?_, he⟩
           dsimp only
-          cases hany : us.any (fun u => exported.contains u) with
+          cases hany : us.any (fun u => mention.contains u) with
           | false => simpa using ht
           | true =>
             obtain ⟨u, hu, hue⟩ := List.any_eq_true.mp hany
@@ -533,16 +528,16 @@ theorem step_rel (exported S : List V) (p : Prog Val) (x : V) (ora : Nat → Val
           dsimp only
           exact ⟨rfl, rfl, rfl, ht, he⟩
 
-theorem run_rel (exported S : List V) (p : Prog Val) (x : V) (ora : Nat → Val)
-    (hc : Covers p.facts exported S) (hsafe : ∀ s, s ∈ S → ¬ Reach (edges p.facts) x s) :
+theorem run_rel (exported mention S : List V) (p : Prog Val) (x : V) (ora : Nat → Val)
+    (hc : Covers p.facts exported mention S) (hsafe : ∀ s, s ∈ S → ¬ Reach (edges p.facts) x s) :
     ∀ (k clock : Nat) (s s' : State Val), Rel (edges p.facts) x s s' →
-      Rel (edges p.facts) x (runO exported (fun _ _ v => v) p k clock s) (runO exported (replace x ora) p k clock s') := by
+      Rel (edges p.facts) x (runO exported mention (fun _ _ v => v) p k clock s) (runO exported mention (replace x ora) p k clock s') := by
   intro k
   induction k with
   | zero => intro _ s s' h; exact h
   | succ k ih =>
     intro clock s s' h
-    exact ih (clock + 1) _ _ (step_rel exported S p x ora clock hc hsafe s s' h)
+    exact ih (clock + 1) _ _ (step_rel exported mention S p x ora clock hc hsafe s s' h)
 
 
 /-- everything the loop returns is reachable from `x`, if its start sets are -/
